@@ -56,11 +56,12 @@ def errors(ref, th, G):
     return float(np.linalg.norm(V[:3])), float(np.linalg.norm(V[3:])), se3.pose_err(T, G)
 
 
-def solve(arm, G, start, free, check, level, script=None):
+def solve(arm, G, start, free, check, level, script=None, max_iters=30):
     from basic_robotics.general import tm
     fr = script if script is not None else [0.5]
     with armlib.scripted_random(fr) as sr, armlib.quiet():
-        th, ok = arm.IK(tm(G.copy()), None if start is None else start.copy(), check=check, level=level, protect=free)
+        th, ok = arm.IK(tm(G.copy()), None if start is None else start.copy(), check=check, level=level,
+                        max_iters=max_iters, protect=free)
     return np.asarray(th, float).reshape(-1), bool(ok), sr.i
 
 
@@ -178,6 +179,27 @@ def work(p):
                 except Exception as e:
                     acc.violation("raised", case, repr(e))
                 acc.case((an, si, ti, free, kind, mag_name))
+        # the same boundary goals through the restart policy: the first attempt (far start) and the restart are limited to
+        # their entry test (max_iters=0) and the scripted restart vector is theta0 itself, so a restart call that judges
+        # with the wrong tolerance accepts a pose the first call would refuse
+        if not free:
+            span0 = np.where(ref0.hi - ref0.lo > 0, ref0.hi - ref0.lo, 1.0)
+            fr0 = list(np.clip((th0 - ref0.lo) / span0, 0, 1))
+            far0 = ref0.clamp(th0 + np.linspace(1.3, -1.1, ref0.n))
+            if np.allclose(ref0.lo + np.array(fr0) * span0, th0, rtol=0, atol=1e-12):
+                for kind in ("rot", "pos"):
+                    for mag_name, mag in (("geo_mean", float(np.sqrt(ptol * rtol))), ("twice_max", 2 * max(ptol, rtol))):
+                        d = se3.unit(np.array([0.3, -0.5, 0.8])) * mag
+                        V = np.concatenate([d, np.zeros(3)]) if kind == "rot" else np.concatenate([np.zeros(3), d])
+                        G = se3.exp6(V) @ T0
+                        case = dict(base, goal="boundary_%s_%s" % (kind, mag_name), start="far", restarts=["theta0", "max_iters=0"])
+                        arm = copy.deepcopy(arm0)
+                        try:
+                            th, ok, _ = solve(arm, G, far0, free, True, 1, fr0, max_iters=0)
+                            judge(acc, arm, ref0, case, G, th, ok, free, True, False, ptol, rtol)
+                        except Exception as e:
+                            acc.violation("raised", case, repr(e))
+                        acc.case((an, si, ti, free, "restart_boundary", kind, mag_name))
         # goals beyond reach (free solver on chains with prismatic joints excluded: it can extend them without bound)
         if not (free and any(ref0.prismatic)):
             G = ref0.base @ se3.T_from([0, 0, 0], ref0.unreach) @ ref0.M
@@ -228,7 +250,7 @@ def run(ctx):
                  "arms x states {fresh, moved, re-tooled, re-tooled+moved} x tolerance settings x solver paths x "
                  "{goals from in-limit joint vectors (generic, 0.15 rad from a limit, on a limit) x starts (exact, +-0.02 rad on every joint, far, zeros, current); "
                  "tolerance-boundary goals (rotation / translation offsets of half the smaller, the geometric mean, twice the larger tolerance) started exactly; "
-                 "unreachable goals; all restart-vector sequences of length 2 over a 3-vector menu}; cases distinct by construction",
+                 "the same boundary goals through one scripted restart with max_iters=0; unreachable goals; all restart-vector sequences of length 2 over a 3-vector menu}; cases distinct by construction",
                  {"arms": len(arms), "states": len(STATES), "tolerance_settings": len(TOLS)})
     ctx.assumptions += ["success is judged with the solver's own error measure (space twist from the reached pose to the goal) recomputed independently, "
                         "orientation against the configured orientation tolerance and position against the position tolerance",
